@@ -3,6 +3,7 @@ package output
 import (
 	"bytes"
 	"io"
+	"sync"
 
 	"github.com/go-task/task/v3/internal/templater"
 )
@@ -31,15 +32,22 @@ func (g Group) WrapWriter(stdOut, _ io.Writer, _ string, cache *templater.Cache)
 
 type groupWriter struct {
 	writer     io.Writer
+	mutex      sync.Mutex
 	buff       bytes.Buffer
 	begin, end string
 }
 
+// Write may be called concurrently: both ends of a pipeline and background
+// jobs of one command write to the same writer
 func (gw *groupWriter) Write(p []byte) (int, error) {
+	gw.mutex.Lock()
+	defer gw.mutex.Unlock()
 	return gw.buff.Write(p)
 }
 
 func (gw *groupWriter) close() error {
+	gw.mutex.Lock()
+	defer gw.mutex.Unlock()
 	if gw.buff.Len() == 0 {
 		// don't print begin/end messages if there's no buffered entries
 		return nil
